@@ -491,27 +491,38 @@ fn may_abort(blob: &[u8], max_atom_len: usize, strict: bool) -> bool {
 fn in_child(kind: &str, args: &[&str]) -> String {
     use std::os::unix::process::ExitStatusExt;
     let exe = std::env::current_exe().unwrap();
-    let out = std::process::Command::new("sh")
-        .arg("-c")
-        .arg("ulimit -v 16777216 2>/dev/null; exec \"$0\" \"$@\"")
-        .arg(exe)
-        .arg("one")
-        .arg(kind)
-        .arg("child")
-        .args(args)
-        .env("VERIF_CHILD", "1")
-        .env("RUST_BACKTRACE", "0")
-        .stderr(std::process::Stdio::null())
-        .output()
-        .unwrap();
-    if out.status.signal().is_some() || out.status.code() == Some(134) {
-        return "abort".to_string();
+    // the harness binary may be re-linked by a concurrent `./check` while a long run is in progress:
+    // an exec failure of the shell (126 / 127) is retried
+    let mut last = String::new();
+    for _attempt in 0..100 {
+        let out = std::process::Command::new("sh")
+            .arg("-c")
+            .arg("ulimit -v 16777216 2>/dev/null; exec \"$0\" \"$@\"")
+            .arg(&exe)
+            .arg("one")
+            .arg(kind)
+            .arg("child")
+            .args(args)
+            .env("VERIF_CHILD", "1")
+            .env("RUST_BACKTRACE", "0")
+            .stderr(std::process::Stdio::null())
+            .output()
+            .unwrap();
+        if out.status.signal().is_some() || out.status.code() == Some(134) {
+            return "abort".to_string();
+        }
+        let s = String::from_utf8_lossy(&out.stdout).trim().to_string();
+        match s.strip_prefix("child ") {
+            Some(r) if out.status.success() => return r.to_string(),
+            _ => {}
+        }
+        last = format!("child-failed {:?} {}", out.status.code(), s);
+        if !matches!(out.status.code(), Some(126) | Some(127)) {
+            break;
+        }
+        std::thread::sleep(std::time::Duration::from_millis(200));
     }
-    let s = String::from_utf8_lossy(&out.stdout).trim().to_string();
-    match s.strip_prefix("child ") {
-        Some(r) if out.status.success() => r.to_string(),
-        _ => format!("child-failed {:?} {}", out.status.code(), s),
-    }
+    last
 }
 
 fn de_any(blob_hex: &str, blob: &[u8], max_atom_len: usize, strict: bool) -> String {
